@@ -17,7 +17,7 @@ import (
 // changes, cache evictions and forged tickets, judged by a small reference
 // model of the resumption policy (DESIGN.md Appendix D).
 
-var resFaults = []string{"rotate-keep-old", "rotate-drop-old", "restart-keep-key", "restart-lose-key", "change-suites", "change-client-auth", "disable-tickets", "enable-tickets", "evict-by-other-name", "other-server-shared-key", "other-server-own-key",
+var resFaults = []string{"rotate-keep-old", "rotate-drop-old", "rotate-retire-old-only", "rotate-readmit-retired", "rotate-old-key-primary-again", "restart-keep-key", "restart-lose-key", "change-suites", "change-client-auth", "disable-tickets", "enable-tickets", "evict-by-other-name", "other-server-shared-key", "other-server-own-key",
 	"change-max-version", "clone-config", "ticket-byte-flip", "ticket-truncated", "ticket-extended", "ticket-suite-not-offered", "ticket-genuine-via-reference-client", "clock-jump", "connection-damaged-after-ticket", "change-client-cas"}
 var resReach = []string{"resumed", "full-handshake", "resumed-with-old-key-ticket-refreshed", "fallback-after-rotation", "fallback-suite-change", "fallback-client-auth", "fallback-tickets-off", "fallback-evicted", "fallback-forged-ticket", "completeness-checked", "soundness-checked", "master-equal-checked", "wire-decoded-resumed", "gm-mode", "tls-mode", "client-cert-in-ticket", "history>=4", "refclient-tls12", "wire-decoded-resumed-tls12", "policy-forbids-failed", "ticket-seen-in-failed-handshake", "per-connection-config"}
 
@@ -29,6 +29,7 @@ type resSrv struct {
 	name       string
 	cfg        *gmtls.Config
 	keys       []int // key generations, first = primary
+	retired    []int // generations once configured, no longer
 	suites     []uint16
 	policy     gmtls.ClientAuthType
 	ticketsOff bool
@@ -707,31 +708,67 @@ func runResumption(c *simkit.Choice, r *simkit.Rec) {
 				out := connect(fmt.Sprint(step), sv, mkClient("server.sim", clientSuites), nil, 0)
 				judge(step, sv, out, false, false, clientSuites, "server.sim")
 			case 1: // rotate
-				keep := c.Bool(1, 2, simkit.LFault)
-				g := nextGen
-				nextGen++
-				if keep {
-					sv.keys = append([]int{g}, sv.keys...)
+				// 0/1: a new primary key, old ones kept or dropped; 2: the primary stays and
+				// the older keys are retired; 3: the primary stays and a retired key is
+				// accepted again; 4: an older key becomes the primary again
+				mode := c.Weighted([]int{3, 3, 2, 1, 1}, simkit.LFault)
+				if mode == 2 && len(sv.keys) < 2 {
+					mode = 0
+				}
+				if mode == 3 && len(sv.retired) == 0 {
+					mode = 1
+				}
+				if mode == 4 && len(sv.keys) < 2 {
+					mode = 1
+				}
+				before := append([]int(nil), sv.keys...)
+				switch mode {
+				case 0:
+					sv.keys = append([]int{nextGen}, sv.keys...)
+					nextGen++
 					if len(sv.keys) > 3 {
 						sv.keys = sv.keys[:3]
 					}
 					r.Fault(idx(resFaults, "rotate-keep-old"))
-				} else {
-					sv.keys = []int{g}
+				case 1:
+					sv.keys = []int{nextGen}
+					nextGen++
 					r.Fault(idx(resFaults, "rotate-drop-old"))
+				case 2:
+					sv.keys = sv.keys[:1]
+					r.Fault(idx(resFaults, "rotate-retire-old-only"))
+				case 3:
+					sv.keys = append(append([]int(nil), sv.keys...), sv.retired[len(sv.retired)-1])
+					r.Fault(idx(resFaults, "rotate-readmit-retired"))
+				case 4:
+					sv.keys = append([]int{sv.keys[len(sv.keys)-1]}, sv.keys[:len(sv.keys)-1]...)
+					r.Fault(idx(resFaults, "rotate-old-key-primary-again"))
+				}
+				for _, k := range before {
+					still := false
+					for _, k2 := range sv.keys {
+						if k2 == k {
+							still = true
+						}
+					}
+					if !still {
+						sv.retired = append(sv.retired, k)
+					}
 				}
 				var ks [][32]byte
 				for _, k := range sv.keys {
 					ks = append(ks, keyBytes(seed, k))
 				}
 				sv.cfg.SetSessionTicketKeys(ks)
-				history = append(history, fmt.Sprintf("rotate(%s,keep=%v)->%v", sv.name, keep, sv.keys))
+				history = append(history, fmt.Sprintf("rotate(%s,mode=%d)->%v", sv.name, mode, sv.keys))
 			case 2: // restart
 				keep := c.Bool(1, 2, simkit.LFault)
 				if keep {
+					sv.retired = append(sv.retired, sv.keys[1:]...)
 					sv.keys = sv.keys[:1]
 					r.Fault(idx(resFaults, "restart-keep-key"))
 				} else {
+					sv.retired = append(sv.retired, sv.keys...)
 					sv.keys = []int{nextGen}
 					nextGen++
 					r.Fault(idx(resFaults, "restart-lose-key"))
